@@ -65,9 +65,7 @@ func (te *Extractor) Extract(reader io.Reader) error {
 	te.deferredUpdates = make([]deferredUpdate, 0, 80)
 	doUpdates := func() error {
 		for i := len(te.deferredUpdates) - 1; i >= 0; i-- {
-			m := te.deferredUpdates[i]
-			err := files.UpdateMetaUnix(m.path, uint32(m.mode), m.mtime)
-			if err != nil {
+			if err := te.deferredUpdates[i].apply(); err != nil {
 				return err
 			}
 		}
@@ -406,6 +404,22 @@ type deferredUpdate struct {
 	mtime time.Time
 }
 
+// apply sets the deferred mode and modification time of a directory. By the
+// time it runs a later entry of the archive may have replaced the (empty)
+// directory with a symlink or a file: os.Chmod would follow such a symlink and
+// change an object outside of the extraction root, so the update is only
+// applied while the path still names a directory.
+func (m deferredUpdate) apply() error {
+	stat, err := os.Lstat(m.path)
+	if err != nil {
+		return err
+	}
+	if !stat.IsDir() {
+		return nil
+	}
+	return files.UpdateMetaUnix(m.path, uint32(m.mode), m.mtime)
+}
+
 func (te *Extractor) deferUpdate(path string, header *tar.Header) error {
 	if header.Mode == 0 && header.ModTime.IsZero() {
 		return nil
@@ -425,8 +439,7 @@ func (te *Extractor) deferUpdate(path string, header *tar.Header) error {
 		// if possible, apply the previous deferral.
 		m := te.deferredUpdates[n-1]
 		if strings.HasPrefix(m.path, prefix()) {
-			err := files.UpdateMetaUnix(m.path, uint32(m.mode), m.mtime)
-			if err != nil {
+			if err := m.apply(); err != nil {
 				return err
 			}
 			te.deferredUpdates = te.deferredUpdates[:n-1]
